@@ -25,13 +25,13 @@ def crash (tgt0 : Bytes) (ws : List (Nat × Bytes)) (k j : Nat) : Bytes :=
 /-- **no partially written chunk is trusted, after any interruption**: in the restart's fetch loop (and, by `C05.verified`,
 in each of its transfers) a chunk is marked valid only if the bytes at its extent hash to its checksum — stated for the
 crash state of an arbitrary write trace, cut anywhere -/
-theorem restart_sound (H : HashFn) (rx : Rx) (B : Bytes) (th : Hdr) (limit : Int) (frag : Nat)
+theorem restart_sound (H : HashFn) (rx : Rx) (B : Bytes) (th : Hdr) (limit : Int) (frag : Nat) (drop : Option (Nat × Nat))
     (hd : Disj (envOf H rx th [])) (tgt0 : Bytes) (ws : List (Nat × Bytes)) (k j : Nat) (valid : List Int)
     (hok : AllOk (envOf H rx th []) (crash tgt0 ws k j) valid) (fuel : Nat) :
-    let out := Update.loop H rx B th limit frag fuel (crash tgt0 ws k j) valid [] 0
+    let out := Update.loop H rx B th limit frag drop fuel (crash tgt0 ws k j) valid [] 0
     AllOk (envOf H rx th []) out.1 out.2.1 ∧ (∀ c, valid.getD c 0 = 1 → out.2.1.getD c 0 = 1) ∧
     (out.2.2.2.2 = none → countEq out.2.1 0 = 0) :=
-  loop_sound H rx B th limit frag hd fuel (crash tgt0 ws k j) valid [] 0 hok
+  loop_sound H rx B th limit frag drop hd fuel (crash tgt0 ws k j) valid [] 0 hok
 
 /-- **a chunk that was completely and correctly written before the interruption is never written again**: a chunk the
 restart's scan marks valid keeps its bytes through every later transfer (C05 confinement), so the restart does not depend
